@@ -52,3 +52,60 @@ func verifC06ConsumeVsAck() {
 	fq.Close()
 	verifReach("end")
 }
+
+// C06 (Sync against the group map): the queue-wide acknowledged position is computed over the groups
+// that exist and stored - while another thread re-creates a stopped group from its persisted image,
+// stops a group, or acknowledges on a group. Every interleaving at the locks / atomics within the
+// pre-emption bound: afterwards the queue's acknowledged position is not beyond the acknowledged
+// position of any existing group, never beyond appended, never moved backwards, and the first
+// message an existing group has not acknowledged is still inside the readable range.
+func verifC06SyncVsGroups3() { verifC06SyncVsGroups() }
+
+func verifC06SyncVsGroups() {
+	dir := verifQueueDir()
+	// positions are chosen from a few shapes (the schedules are the subject here; arbitrary
+	// positions are the subject of the step harness): either group may be the one that lags
+	appended := int64(10)
+	qack := int64(-1 + 2*verifChoose("queueAcked", 2))
+	verifWriteQueueImage(dir, appended, qack)
+	names := []string{"g0", "g1"}
+	acks := []int64{int64(3 + 5*verifChoose("g0Acked", 2)), int64(1 + 4*verifChoose("g1Acked", 2))}
+	for i := 0; i < 2; i++ {
+		verifWriteGroupImage(dir, names[i], acks[i]+1, acks[i])
+	}
+	fq, err := NewFanOutQueue(dir, 0)
+	if err != nil {
+		verifAssert(false, "open succeeds")
+		return
+	}
+	g0, _ := fq.GetOrCreateConsumerGroup("g0")
+	qa0 := fq.Queue().AcknowledgedSeq()
+	op := verifChoose("otherThread", 3)
+	x := acks[0] + 1
+	if op == 0 {
+		// g1 was stopped earlier (its directory stays); it comes back while Sync runs
+		fq.StopConsumerGroup("g1")
+	}
+	verifSpawn(func() { fq.Sync() })
+	verifSpawn(func() {
+		switch op {
+		case 0:
+			_, _ = fq.GetOrCreateConsumerGroup("g1")
+		case 1:
+			fq.StopConsumerGroup("g1")
+		case 2:
+			g0.Ack(x)
+		}
+	})
+	verifJoinAll()
+	qa := fq.Queue().AcknowledgedSeq()
+	verifAssert(qa >= qa0, "queue acknowledged position only moves forward")
+	verifAssert(qa <= fq.Queue().AppendedSeq(), "queue acknowledged position never passes appended")
+	for _, nm := range fq.ConsumerGroupNames() {
+		g, _ := fq.GetOrCreateConsumerGroup(nm)
+		verifAssert(qa <= g.AcknowledgedSeq(), "queue acknowledged position never passes an existing group's")
+		verifGroupInvariant(fq, g, "sync || group operation")
+	}
+	fq.Close()
+	verifReach("end")
+}
